@@ -1,5 +1,7 @@
 import Pfst.ParseWrapLemmas
 import Pfst.Gen.Modes
+import Pfst.SeqFix
+import Pfst.TrailSepLemmas
 
 /-!
 # C05 — parsing is lossless and agrees with Python's parser in every parse mode
@@ -182,6 +184,132 @@ theorem escape_detected (o c : Char) (src : List Char) (h : scanDepth o c src 0 
               omega
   have := key src [] rest 0 i j h hm hm'
   rw [hm', this]
+
+/-! ## location repair of an undelimited sequence (`_fix_undelimited_seq_parsed_delimited`, model `Pfst/SeqFix.lean`) -/
+
+section SeqFix
+open Pfst.SeqFix
+open Pfst.Scan (byteLen c2bRaw prevFrag nextFrag Frag LCont hugeCol lineAt)
+
+theorem blen_eq_byteLen (l : Line) : blen l = byteLen l := by
+  induction l with
+  | nil => rfl
+  | cons c cs ih => simp [blen, byteLen, ih]
+
+/-- **Byte → character → byte is the identity on character boundaries** (any characters): the two conversions
+`_fix_undelimited_seq_parsed_delimited` performs cancel on the offsets CPython reports. -/
+theorem b2c_c2b_boundary (l : Line) (k : Nat) :
+    b2cTake l (c2bRaw l k) = min k l.length ∧ c2bRaw l (b2cTake l (c2bRaw l k)) = c2bRaw l k := by
+  have h : takeB (c2bRaw l k) l = l.take k := by
+    have := takeB_prefix (l.take k) (l.drop k) 0
+    rw [List.take_append_drop, Nat.add_zero, takeB_zero, List.append_nil, blen_eq_byteLen] at this
+    exact this
+  constructor
+  · simp [b2cTake, h]
+  · simp only [b2cTake, h, List.length_take]
+    simp only [c2bRaw]
+    congr 1
+    rw [List.take_eq_take_iff]
+    omega
+
+/-- **The repaired end is a BYTE offset.**  Whenever the repair succeeds and a trailing comma / closing parenthesis
+fragment `f` follows the last element, the stored end is the line of that fragment and the UTF-8 byte offset
+(`c2bRaw`) of the character position just after it — not the character column. -/
+theorem fixSeq_trailing (lines : List Line) (e0 en : Loc) (e1 : Option Int) (ae ln : Int) (o c : Char) (loc : Loc) (f : Frag)
+    (h : fixSeq lines e0 en e1 ae ln o c = some loc)
+    (hf : prevFrag lines (en.endLineno - ln).toNat (b2cTake (lineAt lines (en.endLineno - ln).toNat) en.endCol.toNat)
+            (lines.length - 1) hugeCol false LCont.f = some f) :
+    loc.endLineno = (f.ln : Int) + ln ∧ loc.endCol = c2bRaw (lineAt lines f.ln) (f.col + f.src.length) := by
+  unfold fixSeq at h
+  split at h
+  · simp only [endPos, hf] at h
+    split at h
+    · rename_i sLn sCol eLn eCol hs he
+      split at he
+      · simp only [Option.some.injEq, Prod.mk.injEq] at he
+        obtain ⟨h1, h2⟩ := he
+        subst h1; subst h2
+        simp only [Option.some.injEq] at h
+        subst h
+        exact ⟨rfl, rfl⟩
+      · exact absurd he (by simp)
+    · exact absurd h (by simp)
+  · exact absurd h (by simp)
+
+/-- without a trailing fragment the end stays the last element's end (byte offset → character column → byte offset) -/
+theorem fixSeq_no_trailing (lines : List Line) (e0 en : Loc) (e1 : Option Int) (ae ln : Int) (o c : Char) (loc : Loc)
+    (h : fixSeq lines e0 en e1 ae ln o c = some loc)
+    (hf : prevFrag lines (en.endLineno - ln).toNat (b2cTake (lineAt lines (en.endLineno - ln).toNat) en.endCol.toNat)
+            (lines.length - 1) hugeCol false LCont.f = none) :
+    loc.endLineno = ((en.endLineno - ln).toNat : Int) + ln
+    ∧ loc.endCol = c2bRaw (lineAt lines (en.endLineno - ln).toNat)
+                     (b2cTake (lineAt lines (en.endLineno - ln).toNat) en.endCol.toNat) := by
+  unfold fixSeq at h
+  split at h
+  · simp only [endPos, hf] at h
+    split at h
+    · rename_i sLn sCol eLn eCol hs he
+      simp only [Option.some.injEq, Prod.mk.injEq] at he
+      obtain ⟨h1, h2⟩ := he
+      subst h1; subst h2
+      simp only [Option.some.injEq] at h
+      subst h
+      exact ⟨rfl, rfl⟩
+    · exact absurd h (by simp)
+  · exact absurd h (by simp)
+
+/-- `a,\n"é",` parsed as `(\na,\n"é",\n)`: elements at lines 2 and 3, the tuple ends after the comma at BYTE 5 (character 4) -/
+example : fixSeq ["a,".toList, "\"é\",".toList] ⟨2, 0, 2, 1⟩ ⟨3, 0, 3, 4⟩ (some 3) 4 2 '(' ')' = some ⟨2, 0, 3, 5⟩ := by decide +kernel
+
+/-- `a),(b` is refused -/
+example : fixSeq ["a),(b".toList] ⟨2, 0, 2, 1⟩ ⟨2, 4, 2, 5⟩ (some 2) 3 2 '(' ')' = none := by decide +kernel
+
+end SeqFix
+
+/-! ## trailing separator search (`_has_trailing_comma` / `_has_trailing_semicolon`, model `Pfst/TrailSep.lean`) -/
+
+section TrailSep
+open Pfst.TrailSep
+
+/-- **The trailing-separator search is a single deterministic pass and decides exactly the pattern.**  For a separator that
+is not itself skippable (`,` and `;` are not): the scan — structural recursion, one step per character, no backtracking —
+answers `true` iff the text starts with any sequence of `)` / blanks / line continuations / whole comment lines followed by
+the separator (the language of `(?: [)\s] | \\\n | \#[^\n]*\n )* sep`). -/
+theorem trailing_sep_spec (sep : Char) (hs : isSkip sep = false) (h1 : sep ≠ '\\') (h2 : sep ≠ '#') (s : List Char) :
+    scanSep sep s = true ↔ Matches sep s := by
+  constructor
+  · exact (matches_of_scan sep s).1
+  · rintro ⟨pre, rest, hp, rfl⟩
+    exact scan_of_matches sep hs h1 h2 pre rest hp
+
+/-- instances for the two separators pfst searches for -/
+theorem trailing_comma_spec (s : List Char) : scanSep ',' s = true ↔ Matches ',' s :=
+  trailing_sep_spec ',' (by decide) (by decide) (by decide) s
+
+theorem trailing_semicolon_spec (s : List Char) : scanSep ';' s = true ↔ Matches ';' s :=
+  trailing_sep_spec ';' (by decide) (by decide) (by decide) s
+
+/-- **The repair changed no answer**: the pattern before the repair (`(?: [)\s]* (?: (?: \\ | \#[^\n]* ) \n )? )*`, a star
+over a starred class — exponential backtracking, finding C05-F7) and the repaired one match exactly the same strings. -/
+theorem trailing_sep_same_language (s : List Char) : TriviaOld s ↔ Trivia s := triviaOld_iff s
+
+/-- any number of blanks with no separator after them: answered `false` (by the single pass — this is the input on which
+the old pattern needed time exponential in `n`) -/
+theorem trailing_sep_blanks (sep : Char) (hs : sep ≠ ' ') (n : Nat) : scanSep sep (List.replicate n ' ') = false := by
+  induction n with
+  | zero => rfl
+  | succ n ih =>
+    have h1 : ¬ (' ' = sep) := fun e => hs e.symm
+    have h2 : isSkip ' ' = true := by decide
+    simpa [scanSep, List.replicate_succ, scan, h1, h2] using ih
+
+example : scanSep ',' "  ) # c, \n \\\n ,x".toList = true ∧ scanSep ',' "  ) # c, \n x,".toList = false
+    ∧ scanSep ';' "  # c ;".toList = false := by decide
+/-- `_has_trailing_comma('é, b\n"ü" # c\n ,', 2, 4)`: line 2, BYTE column 4 is after `"ü"` (3 characters) -/
+example : hasTrailingSep ',' "é, b\n\"ü\" # c\n ,".toList 2 4 = true ∧ hasTrailingSep ',' "é, b\n\"ü\" # c\n ,".toList 2 3 = false := by
+  decide
+
+end TrailSep
 
 /-! ## the regenerated mode table and wrapper families (`Pfst/Gen/Modes.lean`) -/
 
